@@ -4,7 +4,7 @@
 # without the patch), then runs the given checks (quick) against the mutated tree via VERIF_REPO. Prints one summary line.
 set -u
 P="$1"; K="$2"; shift 2; CHECKS="${*:-$P}"
-SRC=/tmp/seed/out/$P/$K
+SRC=${SEED_ROOT:-/tmp/seed}/out/$P/$K
 [ -d "$SRC" ] || SRC=/verif/seeded/$P-$K
 export GOFLAGS=-mod=mod GOPROXY=off GOSUMDB=off GOTOOLCHAIN=local
 W="$(mktemp -d /tmp/hpseed.XXXXXX)"; rmdir "$W"
